@@ -1,5 +1,6 @@
 SPECIFICATION Spec
 CONSTANTS
+  FaultUniverse = "made"
   Rels = {"r1", "r2"}
   Rollback = "reinsert"
 INVARIANTS TypeOK AllOrNothing NoSilentOrphan RelationshipRefsKept
